@@ -39,7 +39,8 @@ impl Sim {
             Step::SessRecv { r, s, from_r, from_s, m, garble } => self.step_sess_recv(*r, *s, *from_r, *from_s, *m, *garble),
             Step::SessClose { r, s } => self.step_sess_close(*r, *s),
             Step::CacheAdd { r, peer, sel, bogus } => self.step_cache_add(*r, *peer, sel, *bogus),
-            Step::Crash { r, at, choices } => self.step_crash(*r, *at, *choices),
+            Step::Crash { r, at, choices, after_falloc } => self.step_crash(*r, *at, *choices, *after_falloc),
+            Step::QueueDrive { ops } => self.step_queue_drive(ops),
             Step::Restart { r } => self.step_restart(*r),
             Step::Quiesce => self.step_quiesce(),
         }
